@@ -45,6 +45,7 @@ type RDelivery struct {
 	Muts []RMut `json:"muts"`
 	Junk int    `json:"junk"` // > 0: byte-level junk variant instead of field mutations
 	Src  string `json:"src"`  // "alt": the message is sent by another announced feature of the peer ([1]/1) than the template's
+	Dst  string `json:"dst"`  // "alt": the message is addressed to a feature the local device does not have ([1]/99)
 }
 type RCase struct {
 	Phase string      `json:"phase"`
@@ -457,6 +458,22 @@ func robustReplay(args []string) {
 							src["entity"] = []any{1}
 							src["feature"] = 1
 							line.Muts = append(line.Muts, "source [1]/1")
+						}
+					}
+				}
+				raw, _ = json.Marshal(v)
+			}
+			if d.Dst == "alt" && d.Junk == 0 {
+				var v any
+				_ = json.Unmarshal(raw, &v)
+				if m, ok := v.(map[string]any); ok {
+					if dg, ok := m["datagram"].(map[string]any); ok {
+						if h, ok := dg["header"].(map[string]any); ok {
+							if dst, ok := h["addressDestination"].(map[string]any); ok {
+								dst["entity"] = []any{1}
+								dst["feature"] = 99
+								line.Muts = append(line.Muts, "destination [1]/99")
+							}
 						}
 					}
 				}
